@@ -419,9 +419,66 @@ def scaling(chk, repo, mw, d, eq):
             eq('R16.4', f'scale_from_world [{lab}]: built {ln_} volume / world volume unchanged (volume fractions preserved)', (rad ** 3 - (rad - thick) ** 3) / X.lift(nc['radius']) ** 3,
                (old_len[ln_]['radius'] ** 3 - old_len[ln_]['radius_inner'] ** 3) / Rw ** 3, where)
             below = rad
+        chk.ob('R16.4', f'scale_from_world [{lab}]: the layers keep their stacking order (bottom to top)', list(nc['layers']) == ['Core', 'Mantle', 'Crust'], f'order in the scaled configuration: {list(nc["layers"])}', where,
+               method='interpretation (dictionary order is the stacking order LayeredWorld builds in)')
         chk.ob('R16.4', f'scale_from_world [{lab}]: input world config untouched', repr(cfg) == snapshot, 'old_world.config was modified', where, method='interpretation, object identity')
         nm = recorded.get('new_name')
         chk.ob('R16.4', f'scale_from_world [{lab}]: new name differs from the old name', isinstance(nm, str) and nm != 'Xworld' and 'Xworld' in nm, f'new name {nm!r}', where, method='interpretation')
+    # build_from_world with overrides that name some of the layers: the order of config['layers'] is the order LayeredWorld stacks them in, so the derived
+    # configuration must keep the parent's order, take every stated value from the override and the rest from the parent, and give a contiguous stack
+    rho = [X.atom(f'rho{i_}', 'pos') for i_ in range(3)]; rho_new = X.atom('rho_override', 'pos'); r2n = X.atom('r_mantle_override', 'pos')
+    overrides = {
+        'bottom layer only (density)': {'layers': {'Core': {'density': rho_new}}},
+        'middle layer only (radius)': {'layers': {'Mantle': {'radius': r2n}}},
+        'bottom and top, not the middle': {'layers': {'Core': {'density': rho_new}, 'Crust': {'density': rho_new}}},
+        'all layers listed top-down': {'layers': {'Crust': {'density': rho_new}, 'Mantle': {'density': rho_new}, 'Core': {'density': rho_new}}},
+        'a new top-level key and the top layer': {'albedo': X.atom('albedo', 'pos'), 'layers': {'Crust': {'density': rho_new}}},
+    }
+    for olab, ov in overrides.items():
+        it = Interp(repo, hooks={'global': glob_hook, 'call': call_hook}, max_depth=12, max_unroll=200)
+        cfg = {'name': 'Xworld', 'radius': r3, 'type': 'layered', 'layers': {'Core': {'radius': r1, 'density': rho[0], 'type': 'rock'}, 'Mantle': {'radius': r2, 'density': rho[1], 'type': 'rock'},
+                                                                              'Crust': {'radius': r3, 'density': rho[2], 'type': 'rock'}}}
+        old = Obj(name='old', attrs={'config': cfg, 'name': 'Xworld'})
+        snapshot = repr(cfg); ov_snapshot = repr(ov)
+        recorded.clear()
+        try:
+            it.call(mw, f_from, [old, ov], {})
+        except RaiseSignal as ex:
+            chk.ob('R16.4', f'build_from_world [override: {olab}]: derivation succeeds', False, f'raises {ex.text[:100]}', mw.where(f_from), method='interpretation'); continue
+        built = recorded.get('built', (None, None))[1]
+        where = mw.where(f_from)
+        if not isinstance(built, dict) or not isinstance(built.get('layers'), dict):
+            raise AnalysisError('build_from_world: the configuration handed to build_world was not captured')
+        order = list(built['layers'])
+        chk.ob('R16.4', f'build_from_world [override: {olab}]: the layers keep the parent\'s stacking order (bottom to top)', order == ['Core', 'Mantle', 'Crust'], f'order in the derived configuration: {order}', where,
+               key=f'R16.4|bfw-order|{olab}', method='interpretation (dictionary order is the stacking order LayeredWorld builds in)')
+        bad = []
+        for ln_ in ('Core', 'Mantle', 'Crust'):
+            nl = built['layers'].get(ln_, {})
+            for key_ in ('radius', 'density'):
+                want = ov.get('layers', {}).get(ln_, {}).get(key_, cfg['layers'][ln_][key_])
+                if not (key_ in nl and d.equal(X.lift(nl[key_]), X.lift(want))):
+                    bad.append(f'{ln_}.{key_}')
+        chk.ob('R16.4', f'build_from_world [override: {olab}]: every layer value is the override\'s where stated and the parent\'s otherwise', not bad, 'differs: ' + ', '.join(bad), where, key=f'R16.4|bfw-values|{olab}',
+               method='interpretation + GF(p^2) PIT')
+        # geometry in the order the derived configuration lists the layers: contiguous, ends at the world radius
+        it_g = Interp(repo)
+        below = None; badg = []
+        for idx, ln_ in enumerate(order):
+            nl = built['layers'][ln_]
+            try:
+                rad, thick, vol_, mass_, dens_ = it_g.call(mh_, fg_, [dict(nl), idx, idx == len(order) - 1, X.lift(built['radius']), None, below])
+            except (RaiseSignal, AnalysisError) as ex:
+                badg.append(f'{ln_}: geometry cannot be derived'); break
+            want_in = X.ZERO if idx == 0 else X.lift(built['layers'][order[idx - 1]]['radius'])
+            if not d.equal(rad - thick, want_in): badg.append(f'{ln_}: inner radius is not the radius of the layer below')
+            from ..core.regions import sign_of, POS
+            below = rad
+        if order and not d.equal(X.lift(built['layers'][order[-1]]['radius']), X.lift(built['radius'])):
+            badg.append('the top layer does not end at the world radius')
+        chk.ob('R16.4', f'build_from_world [override: {olab}]: the derived stack is contiguous and ends at the world radius', not badg, '; '.join(badg[:3]), where, key=f'R16.4|bfw-geometry|{olab}', method='interpretation + GF(p^2) PIT')
+        chk.ob('R16.4', f'build_from_world [override: {olab}]: parent configuration and override untouched', repr(cfg) == snapshot and repr(ov) == ov_snapshot, 'an input dictionary was modified', where,
+               key=f'R16.4|bfw-inputs|{olab}', method='interpretation, object identity')
     # derivation chains: names stay distinct and the chain terminates
     it = Interp(repo, hooks={'global': glob_hook, 'call': call_hook}, max_depth=12, max_unroll=200)
     name = 'Earth_Simple'
